@@ -58,14 +58,19 @@ func (b *message) ReadUint32() (r uint32) {
 	return r
 }
 
-func (b *message) ReadString() (r string) {
+// ReadString returns the NUL-terminated string at the current offset. ok is false when the
+// offset is already past the end of the message, i.e. the previous string had no terminator.
+func (b *message) ReadString() (r string, ok bool) {
 	end := b.offset
 	maximum := uint32(len(b.data))
+	if end > maximum {
+		return "", false
+	}
 	for ; end != maximum && b.data[end] != 0; end++ {
 	}
 	r = string(b.data[b.offset:end])
 	b.offset = end + 1
-	return r
+	return r, true
 }
 
 // NewMessageFromBytes wraps the raw bytes of a message to enable processing
@@ -109,6 +114,11 @@ func (m *MatchPostgres) Match(cx *layer4.Connection) (bool, error) {
 		return false, err
 	}
 
+	// The message must at least hold the request code / protocol version
+	if len(data) < 4 {
+		return false, nil
+	}
+
 	b := newMessageFromBytes(data)
 
 	// Check if it is a SSLRequest
@@ -125,11 +135,18 @@ func (m *MatchPostgres) Match(cx *layer4.Connection) (bool, error) {
 	// Try parsing Postgres Params
 	startup := &startupMessage{ProtocolVersion: code, Parameters: make(map[string]string)}
 	for {
-		k := b.ReadString()
+		k, ok := b.ReadString()
+		if !ok {
+			return false, nil
+		}
 		if k == "" {
 			break
 		}
-		startup.Parameters[k] = b.ReadString()
+		v, ok := b.ReadString()
+		if !ok {
+			return false, nil
+		}
+		startup.Parameters[k] = v
 	}
 	// TODO(metafeather): match on param values: user, database, options, etc
 
